@@ -13,6 +13,8 @@ CutFailing(c) ==
     IF c.out # "ok" THEN "TruncatedSheetParses"
     ELSE IF ~IsPrefix(c.complete, c.dom) THEN "CompleteRulesSurviveTruncation"
     ELSE IF c.open # <<>> /\ (Len(c.dom) <= Len(c.complete) \/ ~IsPrefix(c.open, c.dom[Len(c.complete) + 1].body)) THEN "CompleteDeclarationsSurviveTruncation"
+    \* inside every @media rule left open by the cut (at any depth): the nested rules complete before the cut are there, in order
+    ELSE IF \E i \in 1..Len(c.nested) : ~IsPrefix(c.nested[i].complete, c.nested[i].got) THEN "CompleteRulesSurviveTruncation"
     ELSE "ok"
 RECURSIVE FirstCut(_, _)
 FirstCut(cs, i) == IF i > Len(cs) THEN "ok" ELSE IF CutFailing(cs[i]) # "ok" THEN CutFailing(cs[i]) ELSE FirstCut(cs, i + 1)
